@@ -1,10 +1,135 @@
+/-
+  Driver ops of the Pool area (model: TwigModel/Pool.lean, property C01).
+
+  pool_run       {"facts": "fixed" | "pinned", "oracle": {"kind": "lifo"|"fifo"|"fresh"|"seed", "seed": N}, "ops": [OP…]}
+  pool_run_pure  {"ops": [OP…]}
+     → {"outs": [OUT…], "free": <objects pooled at the end>, "next": <objects allocated>, "gets": <pool Gets>}
+
+  OP   {"k":"register","e":E,"n":NAME,"src":SRC} | {"k":"parse","e":E,"src":SRC}
+     | {"k":"render","e":E,"n":NAME,"vars":[[NAME, HEX | [HEX…]]…]} | {"k":"setcache","e":E,"on":BOOL}
+     | {"k":"gc","mode":"all"|"none"|"mod","m":M,"r":R}       (mod: drops the pooled objects with id % M = R)
+  SRC  {"bad":BOOL,"nodes":[NODE…]}
+  NODE {"t":"text","s":HEX} | {"t":"print","v":V} | {"t":"if","v":V,"then":[…],"else":[…]}
+     | {"t":"for","x":X,"xs":XS,"body":[…]} | {"t":"include","n":NAME} | {"t":"extends","n":NAME}
+     | {"t":"block","n":B,"body":[…]} | {"t":"fail"}
+  OUT  {"k":"unit"|"parsed"|"rendered", "ok":BOOL (parsed), "out":HEX | "err":CLASS (rendered), "stale":BOOL}
+       CLASS = not-found | render-error | depth | unsupported
+-/
 import TwigModel.Proto
+import TwigModel.Pool
 open Lean
 namespace Twig.Ops
 
-/-- driver ops of the Pool area (see the module TwigModel.Pool); `none` = not one of ours -/
+open Twig.Pool
+
+def poolMapM {α β : Type} (f : α → Except String β) : List α → Except String (List β)
+  | [] => pure []
+  | a :: r => do let x ← f a; let xs ← poolMapM f r; pure (x :: xs)
+
+/-- nodes nest: recursion on an explicit depth bound (no `partial`) -/
+def poolNode : Nat → Json → Except String Node
+  | 0, _ => throw "template nested too deeply"
+  | d + 1, j => do
+    let t ← Proto.getStr j "t"
+    let kids (k : String) : Except String (List Node) := do
+      let a ← Proto.getArr j k
+      poolMapM (poolNode d) a.toList
+    match t with
+    | "text" => return .text (← Proto.getBytes j "s")
+    | "print" => return .print (← Proto.getStr j "v")
+    | "if" => return .ifv (← Proto.getStr j "v") (← kids "then") (← kids "else")
+    | "for" => return .forv (← Proto.getStr j "x") (← Proto.getStr j "xs") (← kids "body")
+    | "include" => return .incl (← Proto.getStr j "n")
+    | "extends" => return .ext (← Proto.getStr j "n")
+    | "block" => return .block (← Proto.getStr j "n") (← kids "body")
+    | "fail" => return .fail
+    | _ => throw s!"unknown node {t}"
+
+def poolSrc (j : Json) : Except String Src := do
+  let bad := (Proto.getBool j "bad").toOption.getD false
+  let a ← Proto.getArr j "nodes"
+  let ns ← poolMapM (poolNode 64) a.toList
+  return ⟨ns, bad⟩
+
+def poolVar (j : Json) : Except String (String × CVal) := do
+  let a ← j.getArr?
+  match a.toList with
+  | [n, v] =>
+    let name ← n.getStr?
+    match v with
+    | .str _ => return (name, .s (← Proto.asBytes v))
+    | .arr items => return (name, .l (← poolMapM Proto.asBytes items.toList))
+    | _ => throw "bad value"
+  | _ => throw "bad binding"
+
+def poolOp (j : Json) : Except String Op := do
+  let k ← Proto.getStr j "k"
+  match k with
+  | "register" => return .register (← Proto.getNat j "e") (← Proto.getStr j "n") (← poolSrc (← Proto.getObj j "src"))
+  | "parse" => return .parseOnly (← Proto.getNat j "e") (← poolSrc (← Proto.getObj j "src"))
+  | "render" =>
+    let vs ← Proto.getArr j "vars"
+    return .render (← Proto.getNat j "e") (← Proto.getStr j "n") (← poolMapM poolVar vs.toList)
+  | "setcache" => return .setCache (← Proto.getNat j "e") (← Proto.getBool j "on")
+  | "gc" =>
+    let mode ← Proto.getStr j "mode"
+    match mode with
+    | "all" => return .gc fun _ => false
+    | "none" => return .gc fun _ => true
+    | "mod" =>
+      let m ← Proto.getNat j "m"
+      let r ← Proto.getNat j "r"
+      return .gc fun id => id % (m + 1) != r
+    | _ => throw s!"unknown gc mode {mode}"
+  | _ => throw s!"unknown op kind {k}"
+
+def poolOracle (j : Json) : Except String Oracle := do
+  match (Proto.getObj j "oracle").toOption with
+  | none => return Oracle.lifo
+  | some o =>
+    let kind ← Proto.getStr o "kind"
+    match kind with
+    | "lifo" => return Oracle.lifo
+    | "fifo" => return Oracle.fifo
+    | "fresh" => return Oracle.fresh
+    | "seed" => return Oracle.seeded (← Proto.getNat o "seed")
+    | _ => throw s!"unknown oracle {kind}"
+
+def poolErr : Err → String
+  | .notFound => "not-found"
+  | .render => "render-error"
+  | .depth => "depth"
+  | .unsupported => "unsupported"
+
+def poolOut (o : StepOut) : Json :=
+  let st : (String × Json) := ("stale", Json.bool o.stale)
+  match o.out with
+  | .unit => Proto.ok [("k", "unit"), st]
+  | .parsed ok => Proto.ok [("k", "parsed"), ("ok", Json.bool ok), st]
+  | .rendered (.ok out) => Proto.ok [("k", "rendered"), ("out", Proto.hex out), st]
+  | .rendered (.err e) => Proto.ok [("k", "rendered"), ("err", Json.str (poolErr e)), st]
+
+/-- driver ops of the Pool area; `none` = not one of ours -/
 def poolOps (op : String) (j : Json) : Option (Except String Json) :=
   match op with
+  | "pool_run" => some do
+      let facts := match (Proto.getStr j "facts").toOption with
+        | some "pinned" => pinnedFacts
+        | _ => fixedFacts
+      let ω ← poolOracle j
+      let ops ← poolMapM poolOp (← Proto.getArr j "ops").toList
+      let r := run facts ω ops
+      pure (Proto.ok [("outs", Json.arr (r.2.map poolOut).toArray), ("free", Json.num r.1.free.length),
+        ("next", Json.num r.1.next), ("gets", Json.num r.1.tick)])
+  | "pool_run_pure" => some do
+      let ops ← poolMapM poolOp (← Proto.getArr j "ops").toList
+      let r := runPure ops
+      pure (Proto.ok [("outs", Json.arr (r.2.map poolOut).toArray)])
+  | "pool_facts_ok" => some do
+      let facts := match (Proto.getStr j "facts").toOption with
+        | some "pinned" => pinnedFacts
+        | _ => fixedFacts
+      pure (Proto.ok [("ok", Json.bool facts.okb)])
   | _ => none
 
 end Twig.Ops
